@@ -367,8 +367,11 @@ PROPS = {
         level_note="NOT decided: the protobuf wire layer (prost, quick_protobuf, the reflection-driven canonical_raw, the build-time schema "
                    "check) -- sentences 2 and 3 of the statement stay with the existing tests. Assumed leaves (A3/A2): ByteFmt of keccak digests, "
                    "ProtoFmt of PublicKey/Signature/AggregateSignature (blst), of bit_vec::BitVec (from_bytes/to_bytes/truncate), of SocketAddr and "
-                   "Utc inside the Verus unit (SocketAddr is decided by Kani). Schedule / Genesis decode through Schedule::new (validation + "
-                   "sort) and are not under the round-trip contract (it holds only for values satisfying the type's invariant); semver parse/print is assumed. `enc` (one spec function per type) is the wire schema mapping: a deliberate "
+                   "Utc inside the Verus unit (SocketAddr is decided by Kani). Schedule / GenesisRaw decode through Schedule::new (validation + "
+                   "sort) and are not under the full round-trip contract (it holds only for values satisfying the type's invariant); for them a "
+                   "content-preservation contract is proved instead: build encodes every validator in order, the leader selection and every "
+                   "genesis field; read hands exactly the decoded validators (as a multiset: new() sorts) and leader selection to Schedule::new "
+                   "and returns field by field what the message carries; semver parse/print is assumed. `enc` (one spec function per type) is the wire schema mapping: a deliberate "
                    "format change has to change it. Vec equality is content equality; BTreeMap iterates in strictly increasing key order (A1).",
         technique="contract-based deductive verification (Verus: round-trip contract on the ProtoFmt trait, real impl blocks, proto types generated from .proto) + Kani complete harnesses on the real leaf conversions",
         design_ref="DESIGN.md §5 C09",
